@@ -38,11 +38,23 @@ def gen_repo(rng, quick):
                                {n: {PUBHEX[2]: E.raw_sig(2, "old")} for n in names_a},
                                # well-formed entries by the SAME keys the file is about to be signed with, over earlier metadata
                                {n: {PUBHEX[0]: E.raw_sig(0, {"old": n}), PUBHEX[1]: E.raw_sig(1, {"old": n})} for n in names_a + names_b},
-                               {n: {PUBHEX[rng.randrange(2)]: E.raw_sig(rng.randrange(2), "previous")} for n in names_a + names_b + ["gone.conda"]}])
+                               {n: {PUBHEX[rng.randrange(2)]: E.raw_sig(rng.randrange(2), "previous")} for n in names_a + names_b + ["gone.conda"]},
+                               "ALREADY-CORRECT-0", "ALREADY-CORRECT-1"])
         elif f == "removed" and rng.random() < 0.4:
             r[f] = ["gone-1.0-0.tar.bz2"]
         elif f == "repodata_version" and rng.random() < 0.5:
             r[f] = 1
+    # a section that already holds exactly what signing with key 0 / key 1 will produce (the file is still not canonical: it must be rewritten)
+    if isinstance(r.get("signatures"), str) and r["signatures"].startswith("ALREADY-CORRECT"):
+        i = int(r["signatures"][-1])
+        sec = {}
+        for part in ("packages", "packages.conda"):
+            for n, mdv in (r.get(part) or {}).items():
+                try:
+                    sec[n] = {PUBHEX[i]: E.raw_sig(i, mdv)}
+                except (TypeError, ValueError):
+                    pass
+        r["signatures"] = sec
     return r
 
 
